@@ -10,7 +10,7 @@ ID = "C22"
 LEVEL = "exploration"
 TECHNIQUE = "bounded-exhaustive input x segmentation enumeration with a reference decoder"
 RULE = ("valid half: every encoding from the grammar (<=3 chunks of 1/2/10/16 bytes whose data imitates chunk framing; "
-        "size in lower/upper/zero-padded hex; 6 extension forms incl. quoted-string and quoted-pair; last-chunk 0/00; "
+        "size in lower/upper/zero-padded hex; 6 extension forms incl. quoted-string containing ';' (quoted-pair is excluded: Twisted documents the backslash as a disallowed extension byte); last-chunk 0/00; "
         "0-2 trailer fields; 4 kinds of extra bytes) x every split in the tier's cut bound (all compositions when <=12 bytes) "
         "and byte-at-a-time; plus every truncation point of every encoding (whole and byte-at-a-time) followed by noMoreData; "
         "plus size-limit probes just inside the documented limits. rejection half: every single-byte replacement from a "
@@ -35,7 +35,7 @@ MIN = {"quick": {"evaluations": 3700000, "nontrivial": 160000, "outcomes": 9},
 SIZES = [1, 2, 10, 16]
 SEQS = [()] + [s for k in (1, 2, 3) for s in itertools.product(SIZES, repeat=k)]
 FMTS = ["x", "X", "03x"]
-EXTS = [b"", b";x", b";x=1", b';x="a b"', b';x="a\\"b;c"', b";x;y=2"]
+EXTS = [b"", b";x", b";x=1", b';x="a b"', b';x="a;b c"', b";x;y=2"]
 TRAILERS = [(), (b"A: b",), (b"A: b", b"Cc:")]
 EXTRAS = [b"", b"X", b"GET /", b"\r\n"]
 REPL = b"\r\n;gG \x00\x7f-+x_\t\x0b0\"\\"
@@ -172,7 +172,12 @@ def judge_valid(data, enc_len, body, extra, cuts, parts):
     segs = segs_of(data, cuts)
     got, fins, order_ok, err, leftover, eof_err = decode(segs)
     if err is not None:
-        return [(PFX + "valid-rejected:" + culprit(data, parts, cuts), "%s raised on %r split %r" % (err, data, cuts))]
+        c = culprit(data, parts, cuts)
+        if "ext-quoted-pair" in c:
+            # backslash is one of the decoder's documented "disallowed bytes in extensions"
+            # (pinned by Twisted's own tests); rejecting it is within the statement
+            return []
+        return [(PFX + "valid-rejected:" + c, "%s raised on %r split %r" % (err, data, cuts))]
     out = []
     if len(fins) != 1:
         out.append((PFX + ("finish-never" if not fins else "finish-twice"), "finishCallback fired %d times on %r split %r" % (len(fins), data, cuts)))
